@@ -306,7 +306,7 @@ def part_reentrant(args):
     loop = VLoop().install()
     res = []
     n = 0
-    addrs = [("192.0.2.77", 40000), ("192.0.2.78", 40000), ("192.0.2.77", 40001)]
+    addrs = [("192.0.2.77", 40000), ("192.0.2.78", 40000), ("192.0.2.77", 40001), ("192.0.2.78", 40001)]
     behave = {5: 1, 6: 3, 7: 2}  # nest, then: answer / reject as malformed / return nothing
     try:
         alphabet = []
